@@ -52,8 +52,37 @@ def reparam_state(prop):
     return out
 
 
+# derived quantities whose value legitimately depends on the moment they are read
+# (log_q is compared separately at float32 accuracy: it is re-derived on resume)
+_VOLATILE_PROPERTIES = {"current_sampling_time", "last_updated", "log_q"}
+
+
+def property_digest(obj, prefix):
+    """Every public property of the sampler (and of its proposals) that returns a plain value: a
+    restored sampler must report the same derived quantities, not only hold the same fields."""
+    import datetime as _dt
+
+    out = {}
+    for name in sorted(dir(type(obj))):
+        if name.startswith("_") or name in _VOLATILE_PROPERTIES or not isinstance(getattr(type(obj), name, None), property):
+            continue
+        try:
+            v = getattr(obj, name)
+        except Exception as e:
+            out[f"{prefix}.{name}"] = f"raises {type(e).__name__}"
+            continue
+        if isinstance(v, (int, float, bool, str, type(None), np.generic, _dt.timedelta)):
+            out[f"{prefix}.{name}"] = repr(v)
+        elif isinstance(v, np.ndarray) and v.size <= 4096 and v.dtype.kind in "fiub":
+            out[f"{prefix}.{name}"] = _arr(v)
+    return out
+
+
 def std_full_digest(ns):
     d = dict(runs.std_digest(ns))
+    d.update(property_digest(ns, "property"))
+    d.update(property_digest(ns._flow_proposal, "flow.property"))
+    d.update(property_digest(ns._uninformed_proposal, "uninformed.property"))
     fp, up = ns._flow_proposal, ns._uninformed_proposal
     d["flow.samples"] = _arr(getattr(fp, "samples", None))
     d["flow.indices"] = _arr(list(getattr(fp, "indices", []) or []))
@@ -93,6 +122,8 @@ def std_full_digest(ns):
 
 def ins_full_digest(ns):
     d = dict(runs.ins_digest(ns))
+    d.update(property_digest(ns, "property"))
+    d.update(property_digest(ns.proposal, "proposal.property"))
     for name, o in (("training", ns.training_samples), ("iid", ns.iid_samples)):
         if o is None:
             continue
